@@ -934,6 +934,15 @@ func (r *chainRun) replayPath(f *Node, n *Node, path []*MBlock) *Violation {
 }
 
 // checkConservation: C02.
+func sortedAddrs(m map[string]*big.Int) []string {
+	var ks []string
+	for k := range m {
+		ks = append(ks, k)
+	}
+	sortStrings(ks)
+	return ks
+}
+
 func (r *chainRun) checkConservation(n *Node, cur *MState) *Violation {
 	us, err := n.ListUtxos("")
 	if err != nil {
@@ -947,6 +956,29 @@ func (r *chainRun) checkConservation(n *Node, cur *MState) *Violation {
 			per[u.Addr] = new(big.Int)
 		}
 		per[u.Addr].Add(per[u.Addr], u.Amount)
+	}
+	// every output the node offers to a spender is an unspent output of that address (the selection is
+	// served from the utxo cache first: a stale cache entry shows here and nowhere in the tables)
+	exists := map[string]*big.Int{}
+	for _, u := range us {
+		exists[utxoKey([]byte(u.Addr), u.Txid, u.Offset)] = u.Amount
+	}
+	for _, a := range sortedAddrs(per) {
+		if a == "$" || per[a].Sign() == 0 {
+			continue
+		}
+		ins, _, _, err := n.S.SelectUtxos(a, per[a], false, false)
+		if err != nil {
+			continue // (frozen outputs: not everything is selectable)
+		}
+		for _, in := range ins {
+			k := utxoKey(in.FromAddr, in.RefTxid, in.RefOffset)
+			amt := new(big.Int).SetBytes(in.Amount)
+			if exists[k] == nil || exists[k].Cmp(amt) != 0 {
+				return r.viol("selection-offers-nonexistent-output", "%s: SelectUtxos(%s) offers %s = %s, the unspent-output table holds %v for it", n.Name, a, k, amt, exists[k])
+			}
+		}
+		r.rc.St.Probes["selection-checked-against-table"]++
 	}
 	pool, _ := n.S.GetUnconfirmedTx(false)
 	fee := new(big.Int)
